@@ -324,6 +324,7 @@ struct World
     // --- execution
     void run();
     void exec_step(const Step& s);
+    void exec_step_inner(const Step& s);
 
     // --- observation & oracles (obs.cpp / oracle.cpp)
     FullObs observe();
@@ -418,6 +419,7 @@ struct World
     // purity monitor state
     uint64_t pm_writes = 0, pm_trunc = 0, pm_del = 0, pm_hash = 0;
     int64_t pm_changes = 0;
+    bool pm_hot_journal = false;
 };
 
 std::string demangle(const char* name);
